@@ -203,7 +203,8 @@ _RANGES = {
 
 
 def valuation(roles: Roles, kind: str = "generic", seed: int = 0) -> dict:
-    """kind: generic (mixed signs) | monotone (non-negative) | complex | zeros (some exact zero weights)."""
+    """kind: generic (mixed signs) | monotone (non-negative) | complex | zeros (mixed signs, one exact zero
+    per weight tensor) | mzeros (non-negative with one exact zero per weight tensor)."""
     val = {}
     for i, (t, role) in enumerate(roles.items()):
         rng = np.random.default_rng([seed, i, 7919])
@@ -214,10 +215,10 @@ def valuation(roles: Roles, kind: str = "generic", seed: int = 0) -> dict:
             a = a * sgn
         if role == "probs":
             a = a / a.sum(axis=-1, keepdims=True)
-        if kind == "zeros" and role in ("w", "emb") and a.size > 1:
+        if kind in ("zeros", "mzeros") and role in ("w", "emb") and a.size > 1:
             flat = a.reshape(-1)
             flat[int(rng.integers(flat.size))] = 0.0
-        if kind == "zeros" and role == "probs" and a.shape[-1] > 1:
+        if kind in ("zeros", "mzeros") and role == "probs" and a.shape[-1] > 1:
             a[..., 0, 0] = 0.0
             a = a / a.sum(axis=-1, keepdims=True)
         if kind == "complex" and t.dtype == DataType.COMPLEX:
